@@ -119,7 +119,43 @@ def _check_lines(ctx, case, fcfg, lns):
                 key = _classify(segs, ref, got, exp)
                 ctx.violation(dict(case, lines=[segs]), key, "%s: input=%r output=%r expected=%r" % (name, src, got, exp))
                 return False
+    # undo direction: masks and preserved addresses are left alone there as well
+    fu = ipref.file_anonymizer(fcfg, undo=True)
+    got_u = ipref.run_io(fu, text).split("\n")
+    for i, segs in enumerate(lns):
+        parts = []
+        for t, lab in segs:
+            if lab["t"] == "v4":
+                v = lab["v"]
+                parts.append(t if ref.untouched4(v) else ipref.s4(ref.inv4(v)))
+            else:
+                parts.append(t)
+        exp = "".join(parts)
+        ctx.count("undo_lines_checked")
+        g = got_u[i] if i < len(got_u) else None
+        if g != exp:
+            key = _classify_undo(segs, ref, g)
+            ctx.violation(dict(case, lines=[segs]), key, "undo mode: input=%r output=%r expected=%r" % (lines.text_of(segs), g, exp))
+            return False
     return True
+
+
+def _classify_undo(segs, ref, got):
+    pos = 0
+    for text, lab in segs:
+        if lab["t"] == "v4":
+            v = lab["v"]
+            e = text if ref.untouched4(v) else ipref.s4(ref.inv4(v))
+            if got is None or got[pos:pos + len(e)] != e:
+                if ipgen.is_mask_ref(v):
+                    return "mask-token-changed:undo"
+                if ref.is_preserved4(v):
+                    return "preserved-token-changed:undo"
+                return "address-token-wrong:undo"
+            pos += len(e)
+        else:
+            pos += len(text)
+    return "other-text-changed:undo"
 
 
 def _classify(segs, ref, got, exp):
